@@ -21,8 +21,14 @@ def pregen(check):
     if q.returncode != 0 or "end GeomV.C20" not in q.stdout:
         check.broken.append("Equal extractor failed on the current source: " + q.stderr.strip()[-300:])
         return
+    # third extractor: the body of checkNotWGS (translated), the workaround condition of NewTransform's closure (translated),
+    # the pjd constants, the closure's statements (text)  ->  RouteGen.lean (tie lemmas in ProofsWgs.lean)
+    r = subprocess.run([gobin, "routegen", vcheck.REPO], stdout=subprocess.PIPE, stderr=subprocess.PIPE, text=True)
+    if r.returncode != 0 or "end GeomV.C20" not in r.stdout:
+        check.broken.append("route extractor failed on the current source: " + r.stderr.strip()[-300:])
+        return
     with vcheck.Lock("lake"):
-        for name, text in (("Tables.lean", p.stdout), ("EqualGen.lean", q.stdout)):
+        for name, text in (("Tables.lean", p.stdout), ("EqualGen.lean", q.stdout), ("RouteGen.lean", r.stdout)):
             path = os.path.join(vcheck.LEAN, "GeomV", "C20", name)
             old = open(path).read() if os.path.exists(path) else ""
             if old != text:
@@ -49,12 +55,20 @@ CFG = {
                                  # phase 3: every alias over the regenerated registry; what the definitions mean
                                  "C20_registry_aliases", "C20_registry_alias_equal", "C20_registry_meaning", "registry_defs_parse",
                                  "aliases_cover",
-                                 # phase 3: the route of NewTransform's closure with the REAL flags for a datum named WGS84
-                                 "C20_transform_route_wgs84", "C20_wgs84name_second_hop_skipped"]],
+                                 # the route of NewTransform's closure with the REAL datum codes (after fix b165df1: EqualFold); the
+                                 # pre-fix flag function as the negation for the fixed finding wgs84name
+                                 "C20_transform_route_wgs84", "C20_wgs84name_prefix_routes_differ", "C20_wgs84name_second_hop_skipped",
+                                 # checkNotWGS / the workaround condition REGENERATED from transform.go (RouteGen.lean) and their ties;
+                                 # nothing below the route decision reads the datum code
+                                 "genCheckNotWGS_eq", "genCheckNotWGS_flag", "genTwoHops_eq", "genPjd_eq", "route_source_pins",
+                                 "literal_differs", "transform3_code", "transformers_code", "transform_code", "wkt_flag", "p4_flag",
+                                 "equalFold_eq_c08"]],
     "level": "proof",
     "trusted_base": [
         "Lean 4.33.0 kernel; axioms of every theorem printed by #print axioms must be within {propext, Classical.choice, Quot.sound}",
-        "model lean/GeomV/C20/Model.lean is tied to /repo/proj by the correspondence run (every field of the parsed SR bit for bit, Equal, nil-ness) on every check; its tables, the field lists of SR/datum, the case bodies of `equal` (translated statement by statement) and the deciding statements of NewTransform / (*Decoder).SR (source text) are regenerated from the Go source by the pregen hook",
+        "model lean/GeomV/C20/Model.lean is tied to /repo/proj by the correspondence run (every field of the parsed SR bit for bit, Equal, nil-ness) on every check; its tables, the field lists of SR/datum, the case bodies of `equal` (translated statement by statement), the body of checkNotWGS and the workaround condition of NewTransform's closure (translated), and the deciding statements of NewTransform / its closure / (*Decoder).SR (source text) are regenerated from the Go source by the pregen hook",
+        "strings.EqualFold against the ASCII constant \"WGS84\" is modelled by lean/GeomV/C20/Fold.lean (simple case folding: the other ASCII case, plus U+212A for K/k and U+017F for S/s)",
+        "the transformation pipeline below the route decision is C08's model (lean/GeomV/C08/Proj*.lean), tied to the code by C08's check",
         "strconv.ParseFloat is correctly rounded (modelled by exact rational rounding); IEEE-754 binary64 arithmetic of Lean's Float equals Go's on amd64 (no fused multiply-add)",
         "harness/cmd/c20 + lean driver + lib/vcheck.py transport inputs faithfully",
     ],
